@@ -4,6 +4,7 @@ import (
 	"crypto/sha256"
 	"encoding/hex"
 	"fmt"
+	"github.com/luthersystems/elps/lisp"
 	"os"
 	"strconv"
 	"strings"
@@ -102,7 +103,20 @@ var c10Templates = []string{
 	`(json:load-bytes (to-bytes "[1,{\"p\":{\"x\":-9223372036854775810,\"y\":9223372036854775811,\"z\":9223372036854775812,\"w\":9223372036854775813},\"q\":9223372036854775814}]") :exact-integers true)`,
 	`(json:dump-string (sorted-map "k1" (mk-adder 1) "k2" car "k3" (mk-adder 2) "k4" (gensym) "k5" (new point 1 2)))`,
 	`(s:validate (s:make-validator s:sorted-map (s:has-key "a" s:int) (s:has-key "b" s:int) (s:has-key "c" s:int) (s:has-key "d" s:int) (s:has-key "e" s:int)) (sorted-map "a" "x" "b" 1.5 "c" () "d" 'q "e" (vector)))`,
+	// time arithmetic on instants written with the offsets real zones use in summer and
+	// winter: nothing printed may depend on the zone of the host (the separate processes
+	// of the driver phase run under different TZ / LANG settings)
+	`(map 'list (lambda (ts) (map 'list (lambda (d) (let ([t (time:time-add (time:parse-rfc3339 ts) (time:parse-duration d))]) (list (time:format-rfc3339 t) (time:format-rfc3339-nano t)))) '("4000h" "-4000h" "24h" "0s" "-1ns"))) '("2021-07-01T12:00:00+02:00" "2021-01-01T12:00:00+01:00" "2021-07-01T12:00:00-04:00" "2021-01-15T08:30:00-05:00" "2021-01-01T00:00:00+11:00" "2021-07-01T00:00:00+10:30" "2021-07-01T12:00:00Z" "2021-07-01T12:00:00+00:00" "2021-03-28T01:59:59+01:00" "2021-11-07T01:30:00-04:00"))`,
+	// an anonymous validator (never fetched through a symbol) on the call stack of an error
+	c10AnonValidator,
+	`(map 'list (lambda (ts) (let* ([t (time:parse-rfc3339-nano ts)] [u (time:time-add t (time:parse-duration "2500h30m0.5s"))]) (list (time:format-rfc3339-nano u) (time:duration-s (time:time-from t u)) (time:time< t u) (to-string (time:format-rfc3339 (time:time-add u (time:time-from u t))))))) '("2022-10-30T02:30:00.123456789+02:00" "2022-03-13T01:59:59.999999999-05:00" "2022-04-03T01:45:00.5+11:00" "2022-06-15T23:59:60+05:30" "1999-12-31T23:59:59-03:30" "2022-07-01T00:00:00.000000001+01:00"))`,
 }
+
+const c10AnonValidator = `(debug-print (handler-bind ((condition (lambda (c &rest a) (list c a)))) (funcall (s:gt 1)))) (funcall (s:make-validator s:int (s:gt 1)))`
+
+// c10Named: templates whose finding key names the input class instead of the
+// template's position in the list.
+var c10Named = map[string]string{c10AnonValidator: "anonymous-validator-frame-name"}
 
 func c10Program(w interface{ RNG(int, string) *fw.RNG }, idx int) (src, label string, feats map[string]bool) {
 	if idx%3 != 0 {
@@ -116,7 +130,11 @@ func c10Program(w interface{ RNG(int, string) *fw.RNG }, idx int) (src, label st
 		r := w.RNG(idx, "tmpl")
 		// vary the data the template prints
 		extra := fmt.Sprintf("(assoc! big %q %d)\n(assoc! big '%s %d)\n", fw.Pick(r, []string{"n1", "zz", "A", "m"}), r.Intn(100), fw.Pick(r, []string{"sym1", "q", "beta"}), r.Intn(100))
-		return c10Prelude + extra + t + "\n", fmt.Sprintf("template-%d", k%all), nil
+		label = fmt.Sprintf("template-%d", k%all)
+		if n, ok := c10Named[t]; ok {
+			label = n
+		}
+		return c10Prelude + extra + t + "\n", label, nil
 	}
 	r := w.RNG(idx, "gen")
 	p := gen.DefaultProfile()
@@ -144,7 +162,20 @@ func c10Transcript(src string) string {
 	t, v := r.RunV("c10", src)
 	var sb strings.Builder
 	fmt.Fprintf(&sb, "value=%s\nerr=%v cond=%s\nmsg=%s\nstderr=%s\nsteps=%d\ntrace=%s\n", t.Value, t.IsErr, t.Cond, t.Msg, t.Stderr, t.Steps, t.TraceString())
-	_ = v
+	// the message and the call stack as the embedding API hands them to the host
+	if v != nil && v.Type == lisp.LError {
+		fmt.Fprintf(&sb, "goerror=%s\n", lisp.GoError(v).Error())
+		if cs := v.CallStack(); cs != nil {
+			for i := len(cs.Frames) - 1; i >= 0; i-- {
+				f := cs.Frames[i]
+				loc := ""
+				if f.Source != nil {
+					loc = f.Source.String()
+				}
+				fmt.Fprintf(&sb, "frame=%s@%s\n", f.QualifiedFunName(lisp.DefaultUserPackage), loc)
+			}
+		}
+	}
 	return sb.String()
 }
 
@@ -252,6 +283,11 @@ func c10Aux(args []string) int {
 		src, _, _ := c10Program(sd, idx)
 		fmt.Printf("%d %s\n", idx, c10Hash(c10Transcript(src)))
 	}
+	// which zone this process really runs in (a TZ name the host has no data for falls
+	// back to UTC silently: the evidence shows what was exercised)
+	_, jan := time.Date(2021, 1, 15, 12, 0, 0, 0, time.Local).Zone()
+	_, jul := time.Date(2021, 7, 15, 12, 0, 0, 0, time.Local).Zone()
+	fmt.Printf("zone %s/jan%+d/jul%+d\n", strings.ReplaceAll(time.Local.String(), " ", "_"), jan, jul)
 	return 0
 }
 
@@ -262,12 +298,14 @@ func c10Driver(d *fw.D) {
 		env   []string
 		prior int
 	}{
-		{"GOMAXPROCS=1 GOGC=100 prior=0", []string{"GOMAXPROCS=1", "GOGC=100"}, 0},
-		{"GOMAXPROCS=16 GOGC=20 prior=7", []string{"GOMAXPROCS=16", "GOGC=20"}, 7},
-		{"GOMAXPROCS=3 GOGC=off prior=2", []string{"GOMAXPROCS=3", "GOGC=off"}, 2},
-		{"GOMAXPROCS=8 GOGC=400 prior=19", []string{"GOMAXPROCS=8", "GOGC=400"}, 19},
+		// the host environment differs as well: time zone, locale, home and temp directories
+		{"GOMAXPROCS=1 GOGC=100 prior=0 TZ=UTC", []string{"GOMAXPROCS=1", "GOGC=100", "TZ=UTC", "LANG=C", "LC_ALL=C"}, 0},
+		{"GOMAXPROCS=16 GOGC=20 prior=7 TZ=Europe/Berlin", []string{"GOMAXPROCS=16", "GOGC=20", "TZ=Europe/Berlin", "LANG=tr_TR.UTF-8", "LC_ALL=tr_TR.UTF-8"}, 7},
+		{"GOMAXPROCS=3 GOGC=off prior=2 TZ=America/New_York", []string{"GOMAXPROCS=3", "GOGC=off", "TZ=America/New_York", "LANG=en_US.UTF-8", "HOME=/nonexistent"}, 2},
+		{"GOMAXPROCS=8 GOGC=400 prior=19 TZ=Australia/Lord_Howe", []string{"GOMAXPROCS=8", "GOGC=400", "TZ=Australia/Lord_Howe", "LANG=de_DE.ISO-8859-1", "USER=nobody"}, 19},
 	}
 	outs := make([]map[string]string, len(confs))
+	zones := make([]string, len(confs))
 	var wg sync.WaitGroup
 	errs := make([]error, len(confs))
 	for i, c := range confs {
@@ -279,6 +317,10 @@ func c10Driver(d *fw.D) {
 			m := map[string]string{}
 			for _, l := range strings.Split(string(b), "\n") {
 				f := strings.Fields(l)
+				if len(f) == 2 && f[0] == "zone" {
+					zones[i] = f[1]
+					continue
+				}
 				if len(f) == 2 {
 					m[f[0]] = f[1]
 				}
@@ -298,20 +340,27 @@ func c10Driver(d *fw.D) {
 		}
 	}
 	sd := c10Seeder{d.Seed}
+	reported := map[string]bool{}
 	for idx := 0; idx < n; idx++ {
 		k := strconv.Itoa(idx)
 		for i := 1; i < len(confs); i++ {
 			if outs[i][k] != outs[0][k] {
 				src, label, _ := c10Program(sd, idx)
-				d.Violation("nondeterministic-across-processes:"+label,
-					fmt.Sprintf("case %d: transcript hash %s under [%s] but %s under [%s]", idx, outs[0][k], confs[0].name, outs[i][k], confs[i].name), src)
-				return
+				// one report per input class; the comparison goes on (a listed
+				// finding must not hide a different one further down)
+				if !reported[label] {
+					reported[label] = true
+					d.Violation("nondeterministic-across-processes:"+label,
+						fmt.Sprintf("case %d: transcript hash %s under [%s] but %s under [%s]", idx, outs[0][k], confs[0].name, outs[i][k], confs[i].name), src)
+				}
+				break
 			}
 		}
 	}
 	d.Eval(n * len(confs))
 	d.Count("cross_process_transcripts", int64(n*len(confs)))
-	for _, c := range confs {
+	for i, c := range confs {
 		d.SetAdd("process_configurations", c.name)
+		d.SetAdd("process_local_zones_in_effect", zones[i])
 	}
 }
